@@ -41,20 +41,20 @@ func newC17Conn() *c17Conn {
 	ctx, cancel := context.WithCancel(context.Background())
 	return &c17Conn{ctx: ctx, cancel: cancel}
 }
-func (c *c17Conn) Context() context.Context       { return c.ctx }
-func (c *c17Conn) Close() error                   { c.cancel(); return nil }
-func (c *c17Conn) Protocol() proto.Protocol       { return version.Minecraft_1_19_4.Protocol }
-func (c *c17Conn) State() *state.Registry         { return state.Play }
-func (c *c17Conn) Type() phase.ConnectionType     { return phase.Vanilla }
-func (c *c17Conn) RemoteAddr() net.Addr           { return netutil.NewAddr("203.0.113.7:50000", "tcp") }
-func (c *c17Conn) WritePacket(p proto.Packet) error { c.written = append(c.written, p); return nil }
+func (c *c17Conn) Context() context.Context          { return c.ctx }
+func (c *c17Conn) Close() error                      { c.cancel(); return nil }
+func (c *c17Conn) Protocol() proto.Protocol          { return version.Minecraft_1_19_4.Protocol }
+func (c *c17Conn) State() *state.Registry            { return state.Play }
+func (c *c17Conn) Type() phase.ConnectionType        { return phase.Vanilla }
+func (c *c17Conn) RemoteAddr() net.Addr              { return netutil.NewAddr("203.0.113.7:50000", "tcp") }
+func (c *c17Conn) WritePacket(p proto.Packet) error  { c.written = append(c.written, p); return nil }
 func (c *c17Conn) BufferPacket(p proto.Packet) error { c.written = append(c.written, p); return nil }
-func (c *c17Conn) Flush() error                   { return nil }
+func (c *c17Conn) Flush() error                      { return nil }
 
 // syncEvents fires subscribers synchronously and records events.
 type syncEvents struct {
 	event.Manager
-	fired []event.Event
+	fired  []event.Event
 	onKick func(e *KickedFromServerEvent)
 }
 
@@ -77,9 +77,24 @@ func (t *c17Cfg) config() *config.Config { return t.cfg }
 
 var c17Auth auth.Authenticator
 
+// a forced host may also be an IP literal; the IPv6 one is configured with the same list as play.example.com
+const c17IPv6Host = "2001:db8::1"
+
 var c17Servers = []string{"s1", "s2", "s3"}
 
 // ---- enumeration helpers ----
+
+func dedup(l []string) []string {
+	var out []string
+	seen := map[string]bool{}
+	for _, x := range l {
+		if !seen[x] {
+			seen[x] = true
+			out = append(out, x)
+		}
+	}
+	return out
+}
 
 func orderedSubsets(items []string, max int) [][]string {
 	out := [][]string{{}}
@@ -112,6 +127,9 @@ type hostSpelling struct {
 	Address string // handshake ServerAddress
 	Port    int
 	Want    string // the configured host it must resolve to ("" = none)
+	// LoginOnly: only meaningful when the virtual host comes from the real handshake handler, which keeps host and port
+	// apart (in a joined "host:port" string the port of a host that itself contains colons can not be told from the host)
+	LoginOnly bool `json:",omitempty"`
 }
 
 func hostSpellings() []hostSpelling {
@@ -134,6 +152,10 @@ func hostSpellings() []hostSpelling {
 		hostSpelling{Class: "suffix-host", Address: "xplay.example.com", Port: 25565, Want: ""},
 		hostSpelling{Class: "ip", Address: "192.0.2.10", Port: 25565, Want: ""},
 		hostSpelling{Class: "empty", Address: "", Port: 25565, Want: ""},
+		hostSpelling{Class: "ipv6-literal", Address: "2001:db8::1", Port: 25565, Want: c17IPv6Host, LoginOnly: true},
+		hostSpelling{Class: "ipv6-literal", Address: "2001:DB8::1", Port: 1, Want: c17IPv6Host, LoginOnly: true},
+		hostSpelling{Class: "ipv6-literal+fml2", Address: "2001:db8::1\x00FML2\x00", Port: 25565, Want: c17IPv6Host, LoginOnly: true},
+		hostSpelling{Class: "ipv6-literal-unknown", Address: "2001:db8::2", Port: 25565, Want: "", LoginOnly: true},
 	)
 	return out
 }
@@ -186,7 +208,7 @@ func newModel(forced, try, registered []string, hs hostSpelling) *model {
 		m.registered[r] = true
 	}
 	switch hs.Want {
-	case "play.example.com":
+	case "play.example.com", c17IPv6Host:
 		m.list = forced
 	case "other.example.com":
 		m.list = []string{"s3"}
@@ -234,10 +256,10 @@ type caseID struct {
 	History                 []op
 	// Chain != "" selects the failure-chain pass: the proxy's own redirects run for real, every
 	// server refuses (dial error) or kicks during login (Disconnect packet) according to Modes.
-	Chain string            `json:",omitempty"` // initial | kick-packet | kick-reason | conn-error | connect
-	Modes map[string]string `json:",omitempty"` // server -> refuse | kick
-	Target string           `json:",omitempty"` // chain entry "connect": the server the player asks for
-	Login bool              `json:",omitempty"` // login-flow pass: initial choice through the real handshake + login handlers
+	Chain  string            `json:",omitempty"` // initial | kick-packet | kick-reason | conn-error | connect
+	Modes  map[string]string `json:",omitempty"` // server -> refuse | kick
+	Target string            `json:",omitempty"` // chain entry "connect": the server the player asks for
+	Login  bool              `json:",omitempty"` // login-flow pass: initial choice through the real handshake + login handlers
 }
 
 // ---- failure chains: the real redirect loop ----
@@ -247,10 +269,10 @@ func chainCases(reg []string, thorough bool) []caseID {
 	modeSets := []map[string]string{
 		{"s1": "refuse", "s2": "refuse", "s3": "refuse"},
 		{"s1": "kick", "s2": "kick", "s3": "kick"},
-		{"s1": "refuse", "s2": "kick", "s3": "refuse"},
+		{"s1": "eof", "s2": "kick", "s3": "online"},
 	}
 	if thorough {
-		modeSets = append(modeSets, map[string]string{"s1": "kick", "s2": "refuse", "s3": "kick"}, map[string]string{"s1": "kick", "s2": "kick", "s3": "refuse"})
+		modeSets = append(modeSets, map[string]string{"s1": "refuse", "s2": "kick", "s3": "refuse"}, map[string]string{"s1": "online", "s2": "eof", "s3": "refuse"}, map[string]string{"s1": "kick", "s2": "refuse", "s3": "kick"}, map[string]string{"s1": "kick", "s2": "kick", "s3": "refuse"})
 	}
 	var out []caseID
 	for _, ms := range modeSets {
@@ -275,14 +297,16 @@ func chainCases(reg []string, thorough bool) []caseID {
 
 // c17Info is a registered server whose dial is scripted: it refuses, or accepts and kicks during login.
 type c17Info struct {
-	name string
-	addr net.Addr
-	mode string
+	name  string
+	addr  net.Addr
+	mode  string // refuse | kick | eof | online
 	dials *[]string
+	open  []net.Conn // backend ends the proxy leaves open (closed by the harness at the end of the case)
 }
 
 func (i *c17Info) Name() string   { return i.name }
 func (i *c17Info) Addr() net.Addr { return i.addr }
+
 var errDialStorm = errors.New("more dials than a fallback chain over 3 servers can need")
 
 func (i *c17Info) Dial(ctx context.Context, _ Player) (net.Conn, error) {
@@ -292,10 +316,23 @@ func (i *c17Info) Dial(ctx context.Context, _ Player) (net.Conn, error) {
 		// that already failed would recurse forever: unwind to the harness instead
 		panic(errDialStorm)
 	}
-	if i.mode != "kick" {
+	if i.mode == "refuse" || i.mode == "" {
 		return nil, errors.New("scripted: connection refused by " + i.name)
 	}
 	a, b := net.Pipe()
+	switch i.mode {
+	case "eof": // accepts, reads the start of the login and hangs up without a word
+		go func() {
+			_, _ = io.ReadAtLeast(b, make([]byte, 64), 1)
+			_ = b.Close()
+		}()
+		return a, nil
+	case "online": // an online-mode backend: EncryptionRequest (id 0x01: server id "", 1-byte key, 1-byte token)
+		go func() { _, _ = io.Copy(io.Discard, b) }()
+		go func() { _, _ = b.Write([]byte{0x06, 0x01, 0x00, 0x01, 0xAA, 0x01, 0xBB}) }()
+		i.open = append(i.open, b)
+		return a, nil
+	}
 	go func() { _, _ = io.Copy(io.Discard, b) }() // swallow handshake + login start
 	go func() {                                   // login-state Disconnect: id 0x00, JSON chat string
 		js := `{"text":"kick-reason-` + i.name + `"}`
@@ -336,8 +373,18 @@ func runChain(c caseID) (string, string, string) {
 		panic(err)
 	}
 	var dials []string
+	var infos []*c17Info
+	defer func() {
+		for _, inf := range infos {
+			for _, oc := range inf.open {
+				_ = oc.Close()
+			}
+		}
+	}()
 	for i, n := range c.Registered {
-		if _, err := p.Register(&c17Info{name: n, addr: netutil.NewAddr(fmt.Sprintf("127.0.0.1:%d", 30000+i), "tcp"), mode: c.Modes[n], dials: &dials}); err != nil {
+		inf := &c17Info{name: n, addr: netutil.NewAddr(fmt.Sprintf("127.0.0.1:%d", 30000+i), "tcp"), mode: c.Modes[n], dials: &dials}
+		infos = append(infos, inf)
+		if _, err := p.Register(inf); err != nil {
 			panic(err)
 		}
 	}
@@ -586,6 +633,7 @@ func runLogin(c caseID) (string, string, string) {
 	cfg.ForcedHosts["other.example.com"] = []string{"s3"}
 	if len(c.Forced) > 0 {
 		cfg.ForcedHosts["play.example.com"] = c.Forced
+		cfg.ForcedHosts[c17IPv6Host] = c.Forced
 	}
 	cfg.Try = c.Try
 	s := newKitSession(cfg, version.Minecraft_1_12_2.Protocol)
@@ -611,7 +659,11 @@ func runLogin(c caseID) (string, string, string) {
 		return "login-flow/initial-server-event-count", fmt.Sprintf("PlayerChooseInitialServerEvent fired %d times; conn: %s", fired, s.Conn.trace()), "x"
 	}
 	if got != want {
-		return "login-flow/initial-server", fmt.Sprintf("client address %q port %d: initial server %q, want %q (list %v, registered %v)", c.Host.Address, c.Host.Port, got, want, m.list, c.Registered), "init=" + got
+		key := "login-flow/initial-server"
+		if c.Host.LoginOnly {
+			key += "/host-containing-colons" // IPv6 literal as virtual host: a separate identity (the port can only be removed exactly by the handshake-built address)
+		}
+		return key, fmt.Sprintf("client address %q port %d: initial server %q, want %q (list %v, registered %v)", c.Host.Address, c.Host.Port, got, want, m.list, c.Registered), "init=" + got
 	}
 	return "", "", "login:init=" + got
 }
@@ -676,8 +728,27 @@ func TestVerif(t *testing.T) {
 		hosts := hostSpellings()
 		idx := 0
 		sampled := 0
+		type cfgPair struct{ forced, try []string }
+		var pairs []cfgPair
 		for _, forced := range lists {
 			for _, try := range lists {
+				pairs = append(pairs, cfgPair{forced, try})
+			}
+		}
+		// lists that name a server more than once are legal configurations too ("all forced-host/try configurations")
+		dupLists := [][]string{{"s1", "s1"}, {"s1", "s2", "s1"}, {"s2", "s1", "s1"}}
+		for _, d := range dupLists {
+			for _, o := range [][]string{{}, {"s3"}, {"s3", "s2"}} {
+				pairs = append(pairs, cfgPair{d, o})
+			}
+			pairs = append(pairs, cfgPair{[]string{}, d}, cfgPair{[]string{"s3"}, d})
+		}
+		for _, pr := range pairs {
+			{
+				forced, try := pr.forced, pr.try
+				if len(forced) != len(dedup(forced)) || len(try) != len(dedup(try)) {
+					r.Class("config:list-with-repeated-server")
+				}
 				idx++
 				if !r.Mine(idx) {
 					continue
@@ -688,7 +759,7 @@ func TestVerif(t *testing.T) {
 				for _, reg := range regs {
 					// ---- the real fallback loop (failure chains) and the real login flow ----
 					for _, hs := range hosts {
-						if hs.Port == 25565 || r.Thorough() {
+						if hs.Port == 25565 || r.Thorough() || hs.LoginOnly {
 							c := caseID{Forced: forced, Try: try, Registered: reg, Host: hs, Login: true}
 							k, d, _ := runLogin(c)
 							r.Eval(1)
@@ -697,7 +768,7 @@ func TestVerif(t *testing.T) {
 								r.Violation(k, d, c)
 							}
 						}
-						if hs.Port != 25565 || (hs.Class != "exact" && hs.Class != "unknown-host" && !(r.Thorough() && hs.Class == "tcpshield+fml")) {
+						if hs.LoginOnly || hs.Port != 25565 || (hs.Class != "exact" && hs.Class != "unknown-host" && !(r.Thorough() && hs.Class == "tcpshield+fml")) {
 							continue
 						}
 						for _, ch := range chainCases(reg, r.Thorough()) {
@@ -722,6 +793,9 @@ func TestVerif(t *testing.T) {
 						}
 					}
 					for _, hs := range hosts {
+						if hs.LoginOnly {
+							continue
+						}
 						// full histories only for the canonical spelling classes; other spellings check the initial choice + depth-1
 						hl := histories
 						if hs.Class != "exact" && hs.Class != "mixed+fml2" && hs.Class != "unknown-host" {
